@@ -205,7 +205,9 @@ def output_of(events):
     out = []
     holes = {}
     for e in events:
-        if e[0] == "register":
+        if e[0] == "clear":
+            out, holes = [], {}
+        elif e[0] == "register":
             holes[e[1]] = (len(out), e[2])
             out += [None] * e[2]
         elif e[0] in ("push", "push_copy", "push_borrowed"):
@@ -515,6 +517,31 @@ def replay_case(art):
     p = subprocess.run(["cargo", "run", "--offline", "-q", "--"] + args, cwd=d, env=env, stdout=subprocess.PIPE, stderr=subprocess.STDOUT, text=True, timeout=900)
     out = p.stdout
     import re as _re
+    if v["side"].startswith("readwrap"):
+        lines = [l for l in out.splitlines() if l.startswith("READWRAP ")]
+        if not lines:
+            return None, "replay driver failed: " + out[-400:]
+        for l in lines:
+            body = l.split(" => ", 1)[1].strip()
+            if body == "PANIC":
+                return True, "native %s on %s, counts %r: panic (%s)" % (v["side"], _short(v["input"]), v["cuts"], l.split(" => ")[0])
+            mm = _re.match(r"rets=(\S*) consumed=(\d+) out=(\S*)", body)
+            rets = [x for x in mm.group(1).split(",") if x]
+            consumed = int(mm.group(2))
+            total = sum(int(x) for x in rets if x != "err")
+            outb = None if mm.group(3) == "none" else [int(x) for x in mm.group(3).split(".") if x]
+            bad = None
+            if total != consumed:
+                bad = "reported %d bytes but took %d from the reader" % (total, consumed)
+            elif v["side"].endswith("enc") and outb != eval_ref_encode(v["input"][:consumed], *PROD):
+                bad = "output is not the encoding of the %d bytes read" % consumed
+            elif v["side"].endswith("dec") and "err" not in rets:
+                ok, exp = eval_ref_decode(v["input"][:consumed], *PROD)
+                if (outb is not None) != ok or (ok and outb != exp):
+                    bad = "decoded output differs from the decoding of the %d bytes read" % consumed
+            if bad:
+                return True, "native %s on %s, counts %r, %s: %s" % (v["side"], _short(v["input"]), v["cuts"], l.split(" => ")[0][9:], bad)
+        return False, "native %s agrees with the contract on %s" % (v["side"], _short(v["input"]))
     if v["side"] == "stream":
         want = ";".join("%d-%d:%s" % (r[1][0], r[1][1], ".".join(str(x) for x in r[0])) for r in v["expected"]["records"])
         lines = [l for l in out.splitlines() if l.startswith("STREAM ")]
@@ -1393,3 +1420,134 @@ class StreamRecords(CodecJob):
         ob.append(("stream reader %s: the enumerated paths cover every stream" % tag, a2))
         self.records_seen = getattr(self, "records_seen", 0) + sum(len(r) for _c, r, k, _f in impl if k == "eof")
         return ob, viol, {"config": cfg, "implementation_paths": len(impl), "reference_cases": len(ref), "records_returned_over_all_paths": sum(len(r) for _c, r, k, _f in impl if k == "eof")}, len(impl)
+
+
+class ReadWrappers(CodecJob):
+    """C17 for the codec wrappers: Encoder::{read_n, encode_read} and Decoder::{read_n, decode_read} over the read_n contract."""
+    name = "c17::codec_read_wrappers[mirx]"
+    pid = "C17"
+
+    def configs(self):
+        quick = self.tier == "quick"
+        for side in ("enc", "dec"):
+            for L in (range(0, 4) if quick else range(0, 6)):
+                for c1 in range(0, L + 2):
+                    yield {"side": side, "L": L, "counts": [c1, L + 1]}
+        yield {"side": "enc", "L": 300, "sym": [0, 1, 298, 299], "fill": 3, "counts": [300, 10]}
+        yield {"side": "dec", "L": 257, "sym": [1, 2, 253, 254, 255, 256], "fill": 3, "fixed": {0: 252}, "counts": [255, 10]}
+
+    def bounds(self):
+        return ("Encoder::encode_read / Decoder::decode_read (and the read_n wrappers they call) twice in a row with ByteArena::read_n replaced by its contract (any k <= min(count, available) bytes delivered, or an error with nothing delivered): "
+                "every reader content of length <= 3 (quick) / 5 (thorough), every first count 0..L+1, plus 300 / 257-byte contents: Ok(n) reports exactly the bytes delivered, the codec output is that of the delivered prefix, a failed read appends nothing")
+
+    def functions(self):
+        return CodecJob.functions(self) + ["hcobs::{Encoder,Decoder}::{read_n, encode_read, decode_read, encode_anchored, decode_anchored} (MIR)",
+                                           "stub: ByteArena::read_n = its contract (decided for the real function by the Kani c17 jobs)"]
+
+    def check(self, mod, cfg, q):
+        L, counts, side = cfg["L"], cfg["counts"], cfg["side"]
+        sym = set(cfg.get("sym", range(L)))
+        data = windowed(L, sym, cfg.get("fill", 0))
+        for k, v in cfg.get("fixed", {}).items():
+            data[k] = v
+        decls = ["(declare-const b%d (_ BitVec 8))" % i for i in sorted(sym - set(cfg.get("fixed", {}))) if i < L]
+        from mirx import Interp
+        it = Interp(mod, consts={"STUFF": Slice([0xFE, 0xFD], "STUFF"), "STUFF_SEQUENCE": Slice([0xFE, 0xFD], "STUFF")}, decls=decls, max_steps=400000)
+        owner = "Encoder" if side == "enc" else "Decoder"
+        fn = it.api_body(owner, "encode_read" if side == "enc" else "decode_read")
+        alts, npaths = [], 0
+        tag = "%s-L%d-n%s" % (side, L, "_".join(map(str, counts)))
+        try:
+            states = []
+            for r in it.call(it.api_body(owner, "new_from_iovec"), [Adt("OwningIovec", {})]):
+                r.state.store["g:codec"] = r.value
+                states.append((r.state, 0, True))
+            finals = []
+            for cnt in counts:
+                nxt = []
+                for st, used, alive in states:
+                    if not alive:
+                        nxt.append((st, used, alive))
+                        continue
+                    before = len(st.events)
+                    rd = Adt("reader", {"data": Slice(data[used:], "reader")})
+                    for r in it.call(fn, [Ref("g:codec"), rd, cnt, 4], base=st):
+                        npaths += 1
+                        c = AND(*r.state.cond)
+                        if c is False:
+                            continue
+                        if r.kind != "return":
+                            alts.append("true" if c is True else c)
+                            continue
+                        new = r.state.events[before:]
+                        rn = [e for e in new if e[0] == "read_n"]
+                        delivered = rn[0][1] if rn else None
+                        v = r.value
+                        ok = True
+                        if cnt == 0 and rn and delivered != 0:
+                            ok = False
+                        if delivered == "err":
+                            # the read failed: the call fails and nothing else happened
+                            ok = v.name == "Err" and len(new) == 1
+                            nxt.append((r.state, used, False))
+                        elif v.name == "Ok":
+                            ok = ok and v.fields[0] == delivered and not anchor_faults_all([e for e in r.state.events])
+                            nxt.append((r.state, used + delivered, True))
+                        else:
+                            # only the decoder may fail after a successful read (invalid data)
+                            ok = ok and side == "dec" and v.fields[0].get("kind") == "other"
+                            nxt.append((r.state, used + delivered, False))
+                        if not ok:
+                            alts.append("true" if c is True else c)
+                states = nxt
+            fin = it.api_body(owner, "finish")
+            for st, used, alive in states:
+                c0 = AND(*st.cond)
+                if c0 is False:
+                    continue
+                if side == "enc":
+                    for r in it.call(fin, [st.store["g:codec"]], base=st):
+                        c = AND(*r.state.cond)
+                        if r.kind != "return":
+                            alts.append("true" if c is True else c)
+                            continue
+                        outb = output_of([e for e in r.state.events if e[0] != "read_n"])
+                        for rc, rout in ref_encode_cases(data[:used], *PROD):
+                            d = True if outb is None else differ(outb, rout)
+                            x = AND(c, AND(*rc), None if d is True else d) if d is not False else False
+                            if x is not False:
+                                alts.append("true" if x is True else x)
+                elif alive:
+                    # decoder still healthy: what it decoded so far is what the reference decodes from the delivered prefix,
+                    # whenever the reference accepts that prefix as a complete stream
+                    for r in it.call(fin, [st.store["g:codec"]], base=st):
+                        c = AND(*r.state.cond)
+                        if r.kind != "return":
+                            alts.append("true" if c is True else c)
+                            continue
+                        got_ok = r.value.name == "Ok"
+                        outb = output_of([e for e in r.state.events if e[0] != "read_n"]) if got_ok else None
+                        for rc, rok, rout in ref_decode_cases(data[:used], *PROD):
+                            if got_ok != rok:
+                                d = True
+                            elif not rok:
+                                d = False
+                            else:
+                                d = True if outb is None else differ(outb, rout)
+                            x = AND(c, AND(*rc), None if d is True else d) if d is not False else False
+                            if x is not False:
+                                alts.append("true" if x is True else x)
+        finally:
+            it.z3.close()
+        ob, viol = [], []
+        if alts:
+            a, ans, model, path = q.ask("rw-" + tag, decls, [mir.disj(alts)])
+        else:
+            a, model, path = "unsat", "", ""
+        ob.append(("read wrappers %s: Ok(n) == bytes delivered, output == codec(delivered prefix), failed read appends nothing" % tag, a))
+        if a == "sat":
+            mv = mir.model_values(model)
+            inp = [int(mv.get(x.term, 0)) if isinstance(x, Sym) else x for x in data]
+            viol.append({"desc": "encode_read / decode_read disagree with read_n's contract composed with the codec", "side": "readwrap-" + side, "input": inp, "cuts": counts, "methods": [],
+                         "limits": list(PROD), "expected": {"kind": "ok", "bytes": []}, "smt2": path})
+        return ob, viol, {"config": {k: (v if k != "sym" else list(v)[:8]) for k, v in cfg.items()}, "paths": npaths}, npaths
